@@ -513,7 +513,7 @@ def main(argv=None):
         os.makedirs(os.path.join(ROOT, "evidence"), exist_ok=True)
         tmp = os.path.join(ROOT, "evidence", prop_id + ".json.tmp")
         with open(tmp, "w") as f:
-            json.dump(evidence, f, indent=1)
+            json.dump(evidence, f, indent=1, default=_jsonable)
         os.replace(tmp, os.path.join(ROOT, "evidence", prop_id + ".json"))
 
     print("%s tier=%s seed=%d evaluations=%d distinct_nontrivial=%d excluded_known=%d "
@@ -528,5 +528,24 @@ def main(argv=None):
     return 0
 
 
+def _jsonable(o):
+    """NumPy values inside evidence samples (0-d request arrays, NumPy scalars, small arrays)."""
+    if isinstance(o, np.ndarray):
+        return o.tolist()
+    if isinstance(o, np.generic):
+        return o.item()
+    if isinstance(o, (set, frozenset, tuple)):
+        return list(o)
+    return repr(o)
+
+
 if __name__ == "__main__":
-    sys.exit(main())
+    try:
+        rc = main()
+    except SystemExit:
+        raise
+    except BaseException:  # noqa: BLE001 - a crash of the harness is never a verdict about the property
+        traceback.print_exc()
+        print("HARNESS-ERROR (uncaught exception in the runner)")
+        rc = 2
+    sys.exit(rc)
